@@ -78,6 +78,15 @@ def run(R):
                       "graph) to the inner plan; (b) a scan whose graph variable is unbound in its row consults the context's active graph before it "
                       "ranges over all named graphs - otherwise the subquery is evaluated over every graph and, ?g projected away, joined to "
                       "the patterns of whichever graph is current")
+    R.rule("C01-R17", "FILTER is three-valued: an expression over an unbound variable or over operands that cannot be compared raises an error, the "
+                      "solution is dropped, and `!` of an error is an error. (a) the recursive filter evaluators return a type that can express the "
+                      "error (not a plain bool) and never negate a value obtained by collapsing a sub-result to a bool (`unwrap_or(false)`, `== "
+                      "Some(true)`); (b) the comparators never substitute a default number for an operand that does not parse as a number - "
+                      "`?age < 30` must not keep an IRI or the string \"unknown\" as if it were 0")
+    R.rule("C01-R18", "FILTER scope is its own group: a FILTER inside a nested group must not see variables that are bound only outside that group "
+                      "(in the algebra they are unbound there and the comparison is an error). The executor hands the incoming solutions down into "
+                      "every operand, so the rows a Filter evaluates also carry outer bindings: either the Filter's input is evaluated from fresh "
+                      "bindings, or the row is restricted to the input's own variables before the condition is evaluated")
     R.rule("C01-R14", "ORDER BY comparators (top level and subquery) agree and are lexicographic over ALL keys: each walks every sort key in "
                       "order, compares numerically when both values parse as numbers and lexically otherwise, reverses exactly under "
                       "DESC, returns at the first key that is not Equal and Equal only after the last key")
@@ -99,6 +108,8 @@ def run(R):
     r12(R)
     r13(R)
     r16(R)
+    r17(R)
+    r18(R)
     r14(R)
     r15(R)
 
@@ -1043,6 +1054,145 @@ def r13(R):
         ins = [c for c in b.calls() if c.bb in blocks and c.name() == "insert" and _is_row(b, c.args[0])]
         R.ob("C01-R13", "binds-g", "the row handed to the inner pattern binds ?g to the visited graph", len(ins) >= 1 and all(b.dominates(i.bb, r.bb) for i in ins for r in rec),
              where=b.where(rec[0].ln))
+
+
+_COLLAPSE = ("unwrap_or", "unwrap_or_default", "unwrap_or_else", "is_some_and", "is_ok_and", "eq", "ne", "is_some", "is_ok", "is_none", "is_err")
+
+
+def r17(R):
+    prog = R.prog
+    CE = "kolibrie::streamertail_optimizer::types::ConditionExpression"
+    evs = []
+    for k, b in sorted(prog.bodies.items()):
+        if b.crate != "kolibrie" or not b.file.endswith("streamertail_optimizer/types.rs") or b.is_closure or "::tests::" in k:
+            continue
+        if not _dispatch_switches(b, CE):
+            continue
+        fam = prog.family(k)
+        if not any(c.key == k for x in fam for c in x.calls()):
+            continue
+        # an evaluator decides something about a row: it returns bool / Option<bool> / Result<bool,..>, not a rebuilt expression
+        t0 = b.local_ty(0)
+        if "bool" not in t0:
+            continue
+        evs.append(b)
+    R.floor("C01-R17", "recursive filter evaluators (dispatch on ConditionExpression, boolean result)", len(evs), 2)
+    for b in evs:
+        R.saw(b)
+        t0 = b.local_ty(0)
+        R.ob("C01-R17", "three-valued:" + b.name, "%s can return `error` besides true and false (returns %s)" % (b.name, t0.replace("core::option::", "")),
+             t0 != "bool", where=b.where(),
+             detail=None if t0 != "bool" else "a two-valued evaluator turns an error into false, and `!` turns that false into true: "
+             "FILTER(!(?unbound = 1)) keeps every solution")
+        # no negation of a collapsed sub-result in the evaluator proper
+        rec_dests = {c.dest["l"] for c in b.calls() if c.key == b.key and c.dest is not None}
+        bad = []
+        for bb, i, pl, rv, st in b.assigns():
+            if rv["rv"] != "unop" or rv.get("op") != "Not":
+                continue
+            o = F.op_place(rv.get("a") or rv.get("op1") or rv.get("operand") or {})
+            if o is None:
+                continue
+            # walk back through collapsing calls to a recursive result
+            cur, seen, via = [o["l"]], set(), None
+            while cur:
+                x = cur.pop()
+                if x in seen:
+                    continue
+                seen.add(x)
+                if x in rec_dests:
+                    if t0 == "bool" or via:
+                        bad.append((st.get("ln") if isinstance(st, dict) else None, via or "plain bool"))
+                    break
+                for d in b.defs().get(x, []):
+                    if d[0] == "call":
+                        if d[2].name() in _COLLAPSE:
+                            via = d[2].name()
+                        cur += [F.op_place(a)["l"] for a in d[2].args if F.op_place(a)]
+                    elif d[0] in ("assign", "partial"):
+                        if any(e["k"] == "downcast" for q, k in F.rv_places(d[3]) for e in q["p"]):
+                            continue        # matched on Some(..): the error case went elsewhere
+                        cur += [q["l"] for q, k in F.rv_places(d[3])]
+        R.ob("C01-R17", "not-of-error:" + b.name, "%s never negates a sub-result that was collapsed to a bool" % b.name, not bad, where=b.where(bad[0][0] if bad else None),
+             detail=None if not bad else "`!` is applied to a value obtained through %s: an error below becomes true" % ", ".join(sorted({v for _, v in bad})))
+    # (b) comparators: no default number for an operand that is not a number
+    cmps = set()
+    for b in evs:
+        for k in prog.reachable([b.key]):
+            x = prog.bodies.get(k)
+            if x is not None and x.crate == "kolibrie" and x.file.endswith("streamertail_optimizer/types.rs") and "::tests::" not in k:
+                cmps.add(prog.bodies[x.root].key if x.is_closure and x.root in prog.bodies else k)
+    nparse = 0
+    for k in sorted(cmps):
+        x = prog.bodies[k]
+        for y in prog.family(k):
+            for c in y.calls():
+                if c.name() != "parse" or c.dest is None:
+                    continue
+                nparse += 1
+                # how the parse result is consumed
+                for c2 in y.calls():
+                    if c2.name() in ("unwrap_or", "unwrap_or_default") and c2.args and F.op_place(c2.args[0]) is not None:
+                        src = y.origin(c2.args[0], stop_named=False)
+                        from_parse = src is not None and getattr(src, "bb", None) == c.bb and getattr(src, "name", lambda: "")() == "parse"
+                        if not from_parse:
+                            # follow one level of temporaries
+                            p0 = F.op_place(c2.args[0])
+                            ds = y.defs().get(p0["l"], [])
+                            from_parse = any(d[0] == "call" and d[2].bb == c.bb for d in ds)
+                        if from_parse:
+                            R.ob("C01-R17", "default-number:%s" % x.name, "%s compares only operands that are numbers as numbers" % x.name, False,
+                                 where=y.where(c2.ln), detail="an operand that does not parse as a number is replaced by a default (%s) and compared: "
+                                 "`?o < 3` keeps IRIs and arbitrary strings" % (F.op_const(c2.args[1]) or {}).get("d", "default") if len(c2.args) > 1 else "default")
+    R.floor("C01-R17", "number parses in the filter evaluators and comparators", nparse, 2)
+    R.ob("C01-R17", "comparators-scanned", "comparators reachable from the evaluators were scanned (%d functions, %d number parses)" % (len(cmps), nparse), True)
+
+
+def r18(R):
+    prog = R.prog
+    ex = R.body("C01-R18", "ExecutionEngine::execute_with_ids_and_input", crate="kolibrie")
+    if ex is None:
+        return
+    names = [ex.local_name(i) for i in range(1, ex.nargs + 1)]
+    if "incoming" not in names:
+        return
+    sites = []
+    for x in prog.family(ex.key):
+        for c in x.calls():
+            if c.name() in ("evaluate_with_ids", "evaluate") and "streamertail_optimizer::types" in (c.key or ""):
+                sites.append((x, c))
+    R.floor("C01-R18", "places where the executor evaluates a FILTER condition", len(sites), 1)
+    # the rows: where do they come from
+    for x, c in sites:
+        row = c.args[1] if len(c.args) > 1 else None
+        restricted = False
+        fresh_input = False
+        if x.is_closure:
+            # the closure is the predicate of a filter over the result of executing the Filter's input
+            parent = prog.bodies.get(x.parent) if getattr(x, "parent", None) else ex
+            parent = parent or ex
+        else:
+            parent = x
+        recs = [c2 for c2 in ex.calls() if c2.key == ex.key and len(c2.args) >= 4]
+        # the recursive execution that feeds this filter: the one whose result reaches the adaptor holding the closure
+        feeding = []
+        for c2 in recs:
+            d = P.derives(prog, ex, F.op_place(c2.args[3])["l"]) if F.op_place(c2.args[3]) else set()
+            for c3 in ex.calls():
+                if any(P._closure_calls(prog, ex, a)[0] == x.key for a in c3.args) and c3.args and F.op_place(c3.args[0]) is not None:
+                    dd = P.derives(prog, ex, F.op_place(c3.args[0])["l"])
+                    if ("call", "execute_with_ids_and_input") in dd and ("param", "incoming") in d:
+                        feeding.append(c2)
+        if x.is_closure and not feeding:
+            fresh_input = True
+        # a restriction: the row handed to the condition is not the closure's element itself but the result of a call that also takes a variable set
+        if row is not None and F.op_place(row) is not None:
+            dr = P.derives(prog, x, F.op_place(row)["l"])
+            restricted = any(t[0] == "call" and t[1] not in ("deref", "as_ref", "borrow") for t in dr)
+        ok = restricted or fresh_input
+        R.ob("C01-R18", "filter-sees-outer-bindings", "the executor evaluates a FILTER condition only over the variables of the filter's own group", ok,
+             where=x.where(c.ln), detail=None if ok else "the Filter arm executes its input on the incoming solutions and evaluates the condition on the merged "
+             "rows: `?a <p> ?b . { FILTER(?a != <x>) }` filters on the outer ?a although ?a is unbound inside the nested group (the algebra drops every solution)")
 
 
 def r16(R):
